@@ -127,6 +127,14 @@ def read_text_case(text):
                       {"src": READ7, "class": "noncrash"}, DRAIN]}
 
 
+def number_text_case(text):
+    """the runtime numeric reader is total as well: a number or #f, in every radix"""
+    codes = " ".join(str(ord(ch)) for ch in text)
+    s = f"(list->string (map integer->char (list {codes})))"
+    return {"id": f"n-{sha(text, 16)}", "fresh": False, "tag": f"number:text|{text}",
+            "steps": [{"src": f"(let ([s {s}]) (list (string->number s) (string->number s 16) (string->number s 2) (string->symbol s) (string->list s)))", "class": "noncrash"}]}
+
+
 def mkstr(text):
     return "(list->string (map integer->char (list " + " ".join(str(ord(ch)) for ch in text) + ")))"
 
@@ -306,6 +314,11 @@ def run(tier, seed):
     ecases = [engine_text_case(t) for t in strings + sorted((set(texts) | set(xtexts)) - set(strings) - deep) if "@@" not in t]
     everd = replay_batched(ecases, work, "c12e")
     r.add_cases(ecases, everd, nontrivial=lambda c: len(c["steps"][0]["src"]) > 0)
+
+    # ---- (c) runtime numeric reader (string->number in three radixes) on every text
+    ncases = [number_text_case(t) for t in strings if 0 < len(t) <= 4]
+    nverd = replay_batched(ncases, work, "c12n")
+    r.add_cases(ncases, nverd)
 
     # ---- (c) runtime reader on short texts, one engine each
     short = [t for t in strings if 0 < len(t) <= 2]
